@@ -32,7 +32,8 @@ def budgets(tier):
 
 
 _f = st.one_of(st.sampled_from([0.0, 1.0, 0.5, -1.0, 1e-3]), st.floats(min_value=-5, max_value=5, allow_nan=False))
-_u = st.floats(min_value=0.0, max_value=1.2, allow_nan=False)
+# viabilities: special values (fully lethal = exactly 0, no effect = exactly 1, bounds of the usual clipping) are frequent
+_u = st.one_of(st.sampled_from([0.0, 0.0, 1.0, 0.5, 0.01, 0.99, 1e-300]), st.floats(min_value=0.0, max_value=1.2, allow_nan=False))
 
 
 @st.composite
